@@ -6,11 +6,19 @@ MANIFEST = dict(
     text='Theorems in coq/Properties/C05*.v (never early for any tick size / sweep lag; zero timeout answers at once and queues nothing; tombstone exclusion grant vs timeout; upper bound under unit ticks via the wheel invariant where proved) are machine-checked over the engine model; tie = differential correspondence with the manual clock (deadlines, re-check counters via reference counts, long-table migration) ; monitor = reply time window on implementation traces. Millisecond waits are outside the model (real-time behaviour; see DESIGN.md).',
     note="Trusted: Coq kernel; hand-written model validated by the correspondence check of the same run; extraction (ExtrOcamlBasic only); harness + hooks; sequential schedules at request/sweep granularity, one shard, manual clock (sweeper driver loops replayed by the harness); see evidence trusted_base for the full list of modelled-not-verified parts.",
 )
-PROFILES = [('timeouts', 0.6), ('waiters', 0.2), ('core', 0.2)]
+PROFILES = [("timeouts", 0.5), ("longwait", 0.12), ("waiters", 0.18), ("core", 0.2)]
 MONITORS = ['C05', 'PANIC']
+
+
+def realtime(ctx, run):
+    """millisecond wheels run on the wall clock and are not modelled: checked on the implementation in real time"""
+    from tools import engine_rt
+    res, txt = engine_rt.run(run.impl, which=("C05",))
+    ctx.notes.append("real-time millisecond scenario: %d reply lines" % txt.count("rt reply"))
+    return res
 
 
 def run(ctx):
     if getattr(ctx, "replay", None):
         return _engine.replay(ctx, 'C05', MONITORS)
-    return _engine.run_engine_check(ctx, 'C05', PROFILES, MONITORS, n_quick=450, n_thorough=18000)
+    return _engine.run_engine_check(ctx, 'C05', PROFILES, MONITORS, n_quick=450, n_thorough=18000, impl_only=realtime)
